@@ -1,7 +1,9 @@
 (* ArrX_driver.ml - reads the C16 case file written by harness/prop_c16.go, evaluates the
    extracted array model (Arrays.v) and prints the same observables as the harness prints
    for the implementation.  Parsing and printing only: every array operation (building,
-   the three accessors, the message round trip) is an extracted Coq function. *)
+   the three accessors, the message round trip through the wire bytes: ser_array32,
+   size_array32, parse_array32) is an extracted Coq function.  Wire cases: "M id" + w? lines + "Y"
+   is a message given by its fields, "X id hex" an arbitrary byte string. *)
 open Arrx
 
 (* ---- number conversion (printing/parsing only) ---- *)
@@ -47,6 +49,69 @@ let hex_of_bytes (l : byte list) : string =
 
 let split_ws (s : string) : string list =
   List.filter (fun x -> x <> "") (String.split_on_char ' ' s)
+
+(* ---- wire model helpers (printing/parsing only) ---- *)
+let byte_of_int (i : int) : byte =
+  match of_N (n_of_int i) with Some b -> b | None -> failwith "byte out of range"
+let bytes_of_hex (s : string) : byte list =
+  if s = "." then []
+  else begin
+    let n = String.length s / 2 in
+    let rec go i acc =
+      if i < 0 then acc
+      else go (i - 1) (byte_of_int (int_of_string ("0x" ^ String.sub s (2 * i) 2)) :: acc) in
+    go (n - 1) []
+  end
+
+(* long byte strings are compared by length + FNV-1a 64 (+ the bytes when short), as in the harness *)
+let digest (l : byte list) : string =
+  let h = ref 0xcbf29ce484222325L in
+  let len = ref 0 in
+  List.iter (fun b ->
+      h := Int64.mul (Int64.logxor !h (Int64.of_int (int_of_byte b))) 0x100000001b3L;
+      incr len) l;
+  let s = Printf.sprintf "len=%d fnv=%016Lx" !len !h in
+  if !len <= 2048 then s ^ " hex=" ^ hex_of_bytes l else s
+
+let n_of_string (s : string) : n = n_of_i64 (Int64.of_string ("0u" ^ s))
+
+let wbits_str (o : wbits option) : string =
+  match o with
+  | None -> "-"
+  | Some b ->
+    Printf.sprintf "{flags=%Lu n=%s words=[%s] rank=[%s] unk=%s}" (i64_of_n b.wb_flags) (string_of_z b.wb_n)
+      (String.concat "," (List.map (fun w -> Printf.sprintf "%016Lx" (i64_of_n w)) b.wb_words))
+      (String.concat "," (List.map string_of_z b.wb_rank))
+      (hex_of_bytes b.wb_unk)
+
+let wire_fields (m : warray) : string =
+  Printf.sprintf "cnt=%s bm=[%s] off=[%s] elts=%s flags=%Lu ew=%s bme=%s unk=%s"
+    (string_of_z m.wa_cnt)
+    (String.concat "," (List.map (fun w -> Printf.sprintf "%016Lx" (i64_of_n w)) m.wa_bitmaps))
+    (String.concat "," (List.map string_of_z m.wa_offsets))
+    (hex_of_bytes m.wa_elts)
+    (i64_of_n m.wa_flags) (string_of_z m.wa_eltwidth)
+    (wbits_str m.wa_bmelts) (hex_of_bytes m.wa_unk)
+
+(* a message given by its fields: ser_array32, size_array32, parse_array32 of the bytes written *)
+let run_wire_msg (id : string) (m : warray) (out : out_channel) =
+  let pr fmt = Printf.fprintf out fmt in
+  pr "C %s\n" id;
+  let buf = ser_array32 m in
+  pr "M size=%Lu %s\n" (i64_of_n (size_array32 m)) (digest buf);
+  match parse_array32 buf with
+  | None -> pr "U err\n"
+  | Some m' -> pr "U ok %s\n" (wire_fields m')
+
+(* an arbitrary byte string: parse_array32, the fields, and ser_array32 of the loaded message *)
+let run_wire_bytes (id : string) (b : byte list) (out : out_channel) =
+  let pr fmt = Printf.fprintf out fmt in
+  pr "C %s\n" id;
+  match parse_array32 b with
+  | None -> pr "U err\n"
+  | Some m ->
+    pr "U ok %s\n" (wire_fields m);
+    pr "M size=%Lu %s\n" (i64_of_n (size_array32 m)) (digest (ser_array32 m))
 
 (* ---- the case ---- *)
 let kind_of_name (s : string) : ikind =
@@ -135,15 +200,27 @@ let run_case (c : case) (out : out_channel) =
      | Panic -> pr "B g PANIC\n"; None
      | Val (Rejected e) -> pr "B g %s\n" (err_str e); None
      | Val (Built b) -> pr "B g ok\n"; add { tag = "g"; is_typed = false; b }; Some b) in
-  (* serialization round trips, field level *)
-  let reload tag (src : base) into_typed =
-    let m = to_msg src in
-    let b = if into_typed then of_msg_typed m else of_msg_generic kinds m in
-    pr "R %s ok\n" tag;
-    add { tag; is_typed = into_typed; b } in
-  (match tb with Some b -> reload "tt" b true; reload "tg" b false | None -> ());
+  (* the wire bytes of the built arrays: ser_array32 of the message fields, and size_array32 *)
+  let wire_line tag (src : base) =
+    let buf = marshal_array src in
+    pr "M %s size=%Lu %s\n" tag (i64_of_n (size_array32 (wire_of_array32 (to_msg src)))) (digest buf);
+    buf in
+  let tbuf = match tb with Some b -> Some (wire_line "t" b) | None -> None in
+  let gbuf = match gb with Some b -> Some (wire_line "g" b) | None -> None in
+  (* serialization round trips THROUGH THE BYTES: marshal_array, then parse_array32 into
+     the typed / the generic array type *)
+  let reload tag (buf : byte list option) into_typed =
+    match buf with
+    | None -> ()
+    | Some buf ->
+      (match (if into_typed then unmarshal_typed buf else unmarshal_generic kinds buf) with
+       | None -> pr "R %s unmarshal-error\n" tag
+       | Some b ->
+         pr "R %s ok\n" tag;
+         add { tag; is_typed = into_typed; b }) in
+  (match tb with Some _ -> reload "tt" tbuf true; reload "tg" tbuf false | None -> ());
   (match gb with
-   | Some b -> (if typed_kind <> None then reload "gt" b true); reload "gg" b false
+   | Some _ -> (if typed_kind <> None then reload "gt" gbuf true); reload "gg" gbuf false
    | None -> ());
   let width = enc_size kinds in
   List.iter (fun o ->
@@ -183,6 +260,15 @@ let () =
   let out = open_out Sys.argv.(3) in
   let fresh () = { cid = ""; kinds = []; idx = []; vals = []; again = false; idx2 = []; vals2 = []; probes = [] } in
   let c = ref (fresh ()) in
+  (* a wire message under construction *)
+  let empty_w = { wa_cnt = Z0; wa_bitmaps = []; wa_offsets = []; wa_elts = []; wa_flags = N0;
+                  wa_eltwidth = Z0; wa_bmelts = None; wa_unk = [] } in
+  let wid = ref "" in
+  let wm = ref empty_w in
+  let with_bits f =
+    match !wm.wa_bmelts with
+    | Some b -> wm := { !wm with wa_bmelts = Some (f b) }
+    | None -> failwith "Bits line without wm" in
   let rest line = (* the tokens after the one-letter tag *)
     match split_ws line with _ :: r -> r | [] -> [] in
   (try
@@ -203,6 +289,32 @@ let () =
          | 'W' -> !c.vals2 <- List.map value_of_string (rest line)
          | 'P' -> !c.probes <- List.map z_of_string (rest line)
          | 'E' -> run_case !c out
+         | 'M' -> (match split_ws line with
+             | _ :: id :: _ -> wid := id; wm := empty_w
+             | _ -> failwith "bad M line")
+         | 'w' ->
+           let r = rest line in
+           (match line.[1] with
+            | 'c' -> (match r with
+                | [ a; b; c ] -> wm := { !wm with wa_cnt = z_of_string a; wa_flags = n_of_string b; wa_eltwidth = z_of_string c }
+                | _ -> failwith "bad wc line")
+            | 'b' -> wm := { !wm with wa_bitmaps = List.map n_of_string r }
+            | 'o' -> wm := { !wm with wa_offsets = List.map z_of_string r }
+            | 'e' -> wm := { !wm with wa_elts = bytes_of_hex (List.hd r) }
+            | 'u' -> wm := { !wm with wa_unk = bytes_of_hex (List.hd r) }
+            | 'm' -> (match r with
+                | [ "-" ] -> wm := { !wm with wa_bmelts = None }
+                | [ a; b ] -> wm := { !wm with wa_bmelts =
+                                                 Some { wb_flags = n_of_string a; wb_n = z_of_string b; wb_words = []; wb_rank = []; wb_unk = [] } }
+                | _ -> failwith "bad wm line")
+            | 'w' -> with_bits (fun b -> { b with wb_words = List.map n_of_string r })
+            | 'r' -> with_bits (fun b -> { b with wb_rank = List.map z_of_string r })
+            | 'x' -> with_bits (fun b -> { b with wb_unk = bytes_of_hex (List.hd r) })
+            | _ -> failwith ("bad line " ^ line))
+         | 'Y' -> run_wire_msg !wid !wm out
+         | 'X' -> (match split_ws line with
+             | [ _; id; hex ] -> run_wire_bytes id (bytes_of_hex hex) out
+             | _ -> failwith "bad X line")
          | _ -> failwith ("bad line " ^ line)
      done
    with End_of_file -> ());
